@@ -5,12 +5,20 @@ DendroPy-free descriptions, the *library* writes and re-reads them, and the
 comparison is done on specs extracted from the raw child lists.
 
 doc := {"ns": [label, ...],                      namespace labels in order
-        "trees": [{"spec": spec, "rooted": None|True|False, "weight": None|number}, ...]}
+        "trees": [{"spec": spec, "rooted": None|True|False, "weight": None|number, "label": None|tree label}, ...],
+        optional "ns_label", "list_label" (labels of the TaxonNamespace / TreeList objects),
+        optional "ns_removed", "ns_reversed" (history of the namespace, see build)}
 spec := [taxon_label|None, node_label|None, length|None, [children]]   (vf.ref)
+
+An evaluation is (doc, schema, option pair, api).  The option pair is a point of the PRODUCT of five
+independent option axes (see AXES); the api names the write route, the read route and the history of the
+objects (see _c02_routes).
 """
+import itertools
 import unicodedata
 
 from .. import ref, bridge, core
+from . import _c02_routes as R
 
 SCHEMAS = ("newick", "nexus", "nexml")
 
@@ -19,7 +27,9 @@ SCHEMAS = ("newick", "nexus", "nexml")
 PLAIN = "abcXYZ019"
 # every character DESIGN lists + the rest of ASCII punctuation
 SPECIALS = "()[]{}\\/,;:=*'\"`+-<>#&%_ \t!?@^|~.$"
-NONASCII = "éßαж中"      # e-acute, sharp s (Latin-1); alpha, zhe, CJK (outside Latin-1)
+# e-acute, sharp s (Latin-1); alpha, zhe, CJK (outside Latin-1); upper case E-acute, title case Dz-caron,
+# I-with-dot (lower() is two code points), Deseret capital long I (astral plane)
+NONASCII = "éßαж中É\u01c5\u0130\U00010400"
 
 CHAR_NAMES = {
     "(": "lparen", ")": "rparen", "[": "lbracket", "]": "rbracket", "{": "lbrace", "}": "rbrace",
@@ -104,6 +114,8 @@ TOKENLIKE = [
     ":1", ";", ".", "..", "*", "/", "//", "\\", "\\\\", "=", "==", "a=b", "a\\b", "a\\", "\\n", "\"", "\"a\"", "a\"b",
     "<a>", "a&amp;b", "&amp;", "&#9;", "&", "<", ">", "a<b", "</otu>", "<!--", "-->", "]]>", "\\u00e9", "\\t", "%s", "{}",
     "{0}", "a\tb", "a \tb", "x" * 60, "a" + " " * 5 + "b", "é", "ß", "αж", "中中", "aé b_c",
+    # long labels (beyond any fixed-width field): with blanks / underscores / quotes, and non-ASCII
+    "ab_c d'e" * 9, "éß" * 40, "É", "\u01c5x", "\u0130", "\U00010400\U00010400",
 ]
 TOKENLIKE = [s for s in TOKENLIKE if label_ok(s)]
 
@@ -137,27 +149,106 @@ def random_label(rng, style=None):
 
 
 # ---------------------------------------------------------------------------------------
-# writer / reader option pairs ("matching reader options")
-#   schemas: where the pair exists;  needs: constraint on the doc (see doc_fits)
-PAIRS = {
-    "default":      {"w": {}, "r": {}, "schemas": SCHEMAS},
-    "uu+ps/pu":     {"w": {"unquoted_underscores": True, "preserve_spaces": True}, "r": {"preserve_underscores": True},
-                     "schemas": ("newick", "nexus")},
-    "ps/default":   {"w": {"preserve_spaces": True}, "r": {}, "schemas": ("newick", "nexus")},
-    "uu/pu":        {"w": {"unquoted_underscores": True}, "r": {"preserve_underscores": True},
-                     "schemas": ("newick", "nexus"), "needs": "no-space"},
-    "translate":    {"w": {"translate_tree_taxa": True}, "r": {}, "schemas": ("nexus",)},
-    "norooting/force-rooted":   {"w": {"suppress_rooting": True}, "r": {"rooting": "force-rooted"},
-                                 "schemas": ("newick", "nexus"), "needs": "all-rooted"},
-    "norooting/force-unrooted": {"w": {"suppress_rooting": True}, "r": {"rooting": "force-unrooted"},
-                                 "schemas": ("newick", "nexus"), "needs": "all-unrooted"},
-    "weights":      {"w": {"store_tree_weights": True}, "r": {"store_tree_weights": True},
-                     "schemas": ("newick", "nexus")},
-    "internal-taxa": {"w": {}, "r": {"suppress_internal_node_taxa": False}, "schemas": ("newick", "nexus"), "itaxa": True},
-    "translate+internal-taxa": {"w": {"translate_tree_taxa": True}, "r": {"suppress_internal_node_taxa": False},
-                                "schemas": ("nexus",), "itaxa": True},
-}
-LABEL_PAIRS = ("default", "uu+ps/pu", "ps/default", "uu/pu", "translate")
+# writer / reader option pairs ("matching reader options"): the PRODUCT of five independent axes.
+#   value := (name, writer options, reader options, needs of the doc, schemas where it exists)
+TRANSLATE_DICT = "<dict {Taxon: token}>"      # placeholder: the dict is made from the live namespace (R.translate_dict)
+NN = ("newick", "nexus")
+AXES = (
+    ("label", (
+        ("default", {}, {}, (), SCHEMAS),
+        ("ps/default", {"preserve_spaces": True}, {}, (), NN),
+        ("uu+ps/pu", {"unquoted_underscores": True, "preserve_spaces": True}, {"preserve_underscores": True}, (), NN),
+        # unquoted_underscores without preserve_spaces: 'a b' and 'a_b' are one token
+        ("uu/pu", {"unquoted_underscores": True}, {"preserve_underscores": True}, ("no-space",), NN))),
+    ("translate", (
+        ("", {}, {}, (), SCHEMAS),
+        ("translate", {"translate_tree_taxa": True}, {}, (), ("nexus",)),
+        ("translate-dict", {"translate_tree_taxa": TRANSLATE_DICT}, {}, (), ("nexus",)))),
+    ("rooting", (
+        ("", {}, {}, (), SCHEMAS),
+        ("norooting/force-rooted", {"suppress_rooting": True}, {"rooting": "force-rooted"}, ("all-rooted",), NN),
+        ("norooting/force-unrooted", {"suppress_rooting": True}, {"rooting": "force-unrooted"}, ("all-unrooted",), NN),
+        ("norooting/default-rooted", {"suppress_rooting": True}, {"rooting": "default-rooted"}, ("all-rooted",), NN),
+        ("norooting/default-unrooted", {"suppress_rooting": True}, {"rooting": "default-unrooted"}, ("all-unrooted",), NN),
+        # the rooting token is written: it must win over the reader's default
+        ("default-rooted", {}, {"rooting": "default-rooted"}, ("all-defined",), NN),
+        ("default-unrooted", {}, {"rooting": "default-unrooted"}, ("all-defined",), NN))),
+    ("weights", (
+        ("", {}, {}, (), SCHEMAS),
+        ("weights", {"store_tree_weights": True}, {"store_tree_weights": True}, (), NN))),
+    ("itaxa", (
+        ("", {}, {}, (), SCHEMAS),
+        ("internal-taxa", {}, {"suppress_internal_node_taxa": False}, (), NN))),
+)
+AXIS_NAMES = tuple(a for a, v in AXES)
+AXIS_DEFAULT = tuple(v[0][0] for a, v in AXES)
+
+
+def pair_name(values):
+    parts = [v for v, d in zip(values, AXIS_DEFAULT) if v != d]
+    return "+".join(parts) if parts else "default"
+
+
+def _make_pairs():
+    pairs = {}
+    for combo in itertools.product(*[vals for a, vals in AXES]):
+        w, r, needs = {}, {}, []
+        schemas = set(SCHEMAS)
+        for name, wo, ro, nd, sch in combo:
+            w.update(wo)
+            r.update(ro)
+            needs.extend(nd)
+            schemas &= set(sch)
+        values = tuple(c[0] for c in combo)
+        name = pair_name(values)
+        if name in pairs:
+            raise core.HarnessBug("ambiguous pair name %s" % name)
+        pairs[name] = {"w": w, "r": r, "schemas": tuple(s for s in SCHEMAS if s in schemas), "needs": tuple(needs),
+                       "itaxa": values[4] != "", "axes": values}
+    return pairs
+
+
+PAIRS = _make_pairs()
+LABEL_VALUES = tuple(v[0] for v in AXES[0][1])
+# pairs that decide how a LABEL is rendered: label options x translate
+LABEL_PAIRS = tuple(pair_name((l, t, "", "", "")) for t in ("", "translate", "translate-dict") for l in LABEL_VALUES)
+
+
+def with_axis(pair, axis, value):
+    v = list(PAIRS[pair]["axes"])
+    v[AXIS_NAMES.index(axis)] = value
+    return pair_name(v)
+
+
+def restrict(pair, axes):
+    """pair with every axis NOT in `axes` reset to its default."""
+    v = PAIRS[pair]["axes"]
+    return pair_name([x if a in axes else d for x, a, d in zip(v, AXIS_NAMES, AXIS_DEFAULT)])
+
+
+def nondefault_axes(pair):
+    return [a for a, x, d in zip(AXIS_NAMES, PAIRS[pair]["axes"], AXIS_DEFAULT) if x != d]
+
+
+def random_pair(rng, doc, schema, p_default=0.45):
+    """a fitting point of the option product: every free axis independently keeps its default with
+    probability p_default, otherwise takes one of its values that fit the doc (None: the doc fits nothing)."""
+    out = []
+    for (axis, vals), dflt in zip(AXES, AXIS_DEFAULT):
+        cand = [v for v in vals if schema in v[4] and all(_need_ok(doc, n) for n in v[3])]
+        if axis == "itaxa" and schema != "nexml":
+            # decided by the doc, not free: internal taxa need it, internal node labels exclude it
+            if has_internal_taxa(doc):
+                cand = [v for v in cand if v[0] == "internal-taxa"]
+            elif has_node_labels(doc):
+                cand = [v for v in cand if v[0] == ""]
+        elif rng.random() < p_default:
+            cand = [v for v in cand if v[0] == dflt]
+        if not cand:
+            return None
+        out.append(rng.choice(cand)[0])
+    name = pair_name(out)
+    return name if doc_fits(doc, schema, name) else None
 
 
 def all_labels(doc):
@@ -175,20 +266,35 @@ def has_internal_taxa(doc):
     return any(n[0] is not None and n[3] for t in doc["trees"] for n in ref.preorder(t["spec"]))
 
 
+def has_node_labels(doc):
+    return any(n[1] is not None for t in doc["trees"] for n in ref.preorder(t["spec"]))
+
+
+def tree_labels(doc):
+    return [t["label"] for t in doc["trees"] if t.get("label") is not None]
+
+
+def _need_ok(doc, need):
+    if need == "no-space":
+        return not any((" " in s) for s in all_labels(doc))
+    if need == "all-rooted":
+        return bool(doc["trees"]) and all(t["rooted"] is True for t in doc["trees"])
+    if need == "all-unrooted":
+        return bool(doc["trees"]) and all(t["rooted"] is False for t in doc["trees"])
+    if need == "all-defined":
+        return bool(doc["trees"]) and all(t["rooted"] is not None for t in doc["trees"])
+    raise ValueError(need)
+
+
 def doc_fits(doc, schema, pair):
     """is (schema, option pair) a *consistent* way to write and re-read this doc?
     (pairs that cannot round-trip by construction are never generated)"""
     p = PAIRS[pair]
     if schema not in p["schemas"]:
         return False
-    need = p.get("needs")
-    if need == "no-space" and any((" " in s) for s in all_labels(doc)):
-        # unquoted_underscores without preserve_spaces: 'a b' and 'a_b' are one token
-        return False
-    if need == "all-rooted" and not (doc["trees"] and all(t["rooted"] is True for t in doc["trees"])):
-        return False
-    if need == "all-unrooted" and not (doc["trees"] and all(t["rooted"] is False for t in doc["trees"])):
-        return False
+    for need in p["needs"]:
+        if not _need_ok(doc, need):
+            return False
     if has_internal_taxa(doc):
         # Newick/NEXUS readers turn internal labels into node labels unless told otherwise
         if schema != "nexml" and not p.get("itaxa"):
@@ -220,16 +326,20 @@ def doc_fits(doc, schema, pair):
 # ---------------------------------------------------------------------------------------
 # running one round trip through the real library
 class Outcome(object):
-    __slots__ = ("phase", "exc", "text", "got", "ns", "log")
+    __slots__ = ("phase", "exc", "text", "got", "ns", "log", "expect", "extra", "strict_ns", "clause")
 
     def __init__(self):
         self.phase = None   # None | "write" | "read"  (where an exception came from)
         self.exc = None     # (mechanism key of the exception, brief text) -- never the exception object: a
                             # retained traceback keeps pyexpat / iterparse frames alive until interpreter exit
+        self.clause = None  # clause name of the exception (write-error, reread-parse-error, ...)
         self.text = None
-        self.got = None     # [(spec, rooted, weight)]
+        self.got = None     # [(spec, rooted, weight, namespace is the list's, foreign taxa, tree label)]
         self.ns = None
         self.log = None
+        self.expect = None  # the doc trees the delivered trees are compared with (read-twice: each twice)
+        self.extra = []     # clauses observed by the route itself
+        self.strict_ns = False   # the text was read into the source namespace (recorded for witnesses)
 
 
 def build(doc):
@@ -242,7 +352,7 @@ def build(doc):
         labels.insert(min(pos, len(labels)), lab)
     if doc.get("ns_reversed"):
         labels.reverse()
-    ns = dendropy.TaxonNamespace(labels)
+    ns = dendropy.TaxonNamespace(labels, label=doc.get("ns_label"))
     for pos, lab in removed:
         ns.remove_taxon_label(lab)
     if doc.get("ns_reversed"):
@@ -250,7 +360,7 @@ def build(doc):
     by_label = dict((t.label, t) for t in ns)
     trees = []
     for t in doc["trees"]:
-        tr = bridge.build_tree(t["spec"], ns, t["rooted"], taxa_by_label=by_label)
+        tr = bridge.build_tree(t["spec"], ns, t["rooted"], taxa_by_label=by_label, label=t.get("label"))
         if t.get("weight") is not None:
             tr.weight = t["weight"]
         trees.append(tr)
@@ -281,44 +391,157 @@ def _exc_summary(e):
     return res
 
 
-def roundtrip(doc, schema, pair, api):
-    """api: 'tree' (Tree.as_string / Tree.get; one-tree docs) or 'list' (TreeList.*)."""
+def writer_options(pair, ns, doc):
+    w = dict(PAIRS[pair]["w"])
+    if w.get("translate_tree_taxa") == TRANSLATE_DICT:
+        w["translate_tree_taxa"] = R.translate_dict(ns, all_labels(doc) + tree_labels(doc))
+    return w
+
+
+def _snapshot(tree, nsids):
+    spec, nodes = bridge.extract(tree, with_nodes=True)
+    foreign = 0
+    for s, nd in nodes:
+        tx = nd.taxon
+        if tx is not None and id(tx) not in nsids:
+            foreign += 1
+    return spec, foreign
+
+
+def _flavour(doc, text_len=0):
+    """deterministic choice between an entry point and its aliases (no random source in here)."""
+    return (len(doc["ns"]) + sum(ref.n_nodes(t["spec"]) for t in doc["trees"])) % 3
+
+
+def _phase(out, phase, clause, fn, limit=None):
+    """run one phase of the round trip; an exception (or an exhausted step budget) becomes the outcome.
+    -> (True, result) | (False, None)"""
+    try:
+        if limit is None:
+            return True, fn()
+        res, tripped = R.guarded(fn, limit)
+        if tripped is None:
+            return True, res
+        out.phase = phase
+        out.clause = "%s-step-budget-exceeded" % ("write" if phase == "write" else "reread")
+        out.exc = (tripped.rsplit(":", 1)[0], "no result after %d loop iterations inside the library (at %s)" % (limit, tripped))
+        return False, None
+    except core.CaseTimeout:
+        raise
+    except Exception as e:
+        out.phase, out.clause, out.exc = phase, clause, _exc_summary(e)
+        del e
+        return False, None
+
+
+def roundtrip(doc, schema, pair, api="tree"):
+    """one write + re-read through the real library; api: see _c02_routes."""
     import dendropy
+    kind, variant = R.split(api)
     p = PAIRS[pair]
     out = Outcome()
-    ns, trees = build(doc)
+    out.expect = doc["trees"]
+    scratch = R.Scratch()
     try:
-        if api == "tree":
+        # ---------------------------------------------------------------- the source objects and their history
+        if variant == "relabelled":
+            # built and written once under other labels, then renamed in place
+            mapping, back = _alias_labels(doc)
+            adoc = relabel(doc, mapping)
+            ns, trees = build(dict(adoc, trees=[dict(t, label=None) for t in adoc["trees"]]))
+        else:
+            ns, trees = build(doc)
+        if kind == "tree":
             src = trees[0]
+            cls = dendropy.Tree
         else:
             src = dendropy.TreeList(trees, taxon_namespace=ns)
-        out.text = src.as_string(schema, **p["w"])
-    except core.CaseTimeout:
-        raise
-    except Exception as e:
-        out.phase, out.exc = "write", _exc_summary(e)
-        del e
+            src.label = doc.get("list_label")
+            cls = dendropy.TreeList
+        if variant == "relabelled":
+            ok, _ = _phase(out, "write", "write-error", lambda: src.as_string(schema, **writer_options(pair, ns, doc)))
+            if not ok:
+                return out
+            for tx in ns:
+                tx.label = back.get(tx.label, tx.label)
+            for tr, t in zip(trees, doc["trees"]):
+                tr.label = t.get("label")
+                for nd in tr.preorder_node_iter():
+                    if nd.label is not None:
+                        nd.label = back.get(nd.label, nd.label)
+        elif variant.startswith("prewrite="):
+            other = variant.split("=", 1)[1]
+            ok, _ = _phase(out, "write", "write-error", lambda: src.as_string(schema, **writer_options(other, ns, doc)))
+            if not ok:
+                return out
+        w = writer_options(pair, ns, doc)
+        r = dict(p["r"])
+        flav = _flavour(doc)
+        nn = sum(ref.n_nodes(t["spec"]) for t in doc["trees"]) + len(doc["ns"])
+        guarded = variant in R.FILE_VARIANTS
+        # ---------------------------------------------------------------- write
+        ok, res = _phase(out, "write", "write-error",
+                         lambda: R.write(src, schema, w, variant, scratch, flav % 2, dendropy),
+                         R.step_limit(nn, 0) if guarded else None)
+        if not ok:
+            return out
+        out.text, path = res
+        # ---------------------------------------------------------------- read
+        before = None
+        if variant == "read-append":
+            before = [(id(t), ref.ordered(bridge.extract(t)), t._is_rooted) for t in src]
+        ok, res = _phase(out, "read", "reread-parse-error",
+                         lambda: R.read(cls, out.text, path, schema, r, variant, scratch, flav, dendropy,
+                                        src_ns=ns, src_list=src if kind == "list" else None),
+                         R.step_limit(nn, len(out.text)) if guarded else None)
+        if not ok:
+            return out
+        gl, gns, out.extra, obj = res
+        if variant in ("read-twice", "yield-files"):
+            out.expect = list(doc["trees"]) + list(doc["trees"])
+        if variant in ("src-ns", "read-append"):
+            out.strict_ns = True
+        if before is not None:
+            after = [(id(t), ref.ordered(bridge.extract(t)), t._is_rooted) for t in list(src)[:len(before)]]
+            if after != before:
+                out.extra.append(("trees-already-in-the-list-changed", "", {}))
+        # ---------------------------------------------------------------- second generation
+        if variant == "rewrite":
+            # the objects the READER delivered are written again with the same options and re-read
+            w2 = writer_options(pair, gns, doc)
+            ok, res = _phase(out, "write", "write-error", lambda: obj.as_string(schema, **w2))
+            if not ok:
+                return out
+            out.text = res
+            ok, res = _phase(out, "read", "reread-parse-error",
+                             lambda: R.read(cls, out.text, None, schema, r, "", scratch, 0, dendropy))
+            if not ok:
+                return out
+            gl, gns, extra2, obj = res
+            out.extra = out.extra + extra2
+        # ---------------------------------------------------------------- what came back
+        nsids = set(id(t) for t in gns)
+        out.got = []
+        for g in gl:
+            spec, foreign = _snapshot(g, nsids)
+            out.got.append((spec, g._is_rooted, getattr(g, "weight", None), g.taxon_namespace is gns, foreign,
+                            getattr(g, "label", None)))
+        out.ns = [t.label for t in gns]
         return out
-    try:
-        if api == "tree":
-            got = dendropy.Tree.get(data=out.text, schema=schema, **p["r"])
-            gl = [got]
-            gns = got.taxon_namespace
-        else:
-            got = dendropy.TreeList.get(data=out.text, schema=schema, **p["r"])
-            gl = list(got)
-            gns = got.taxon_namespace
-    except core.CaseTimeout:
-        raise
-    except Exception as e:
-        out.phase, out.exc = "read", _exc_summary(e)
-        del e
-        return out
-    out.got = []
-    for g in gl:
-        out.got.append((bridge.extract(g), g._is_rooted, getattr(g, "weight", None), g.taxon_namespace is gns))
-    out.ns = [t.label for t in gns]
-    return out
+    finally:
+        scratch.close()
+
+
+def _alias_labels(doc):
+    """(mapping label -> harmless alias, and back) over every label of the doc."""
+    pool = LabelPool()
+    for l in all_labels(doc):
+        pool.add(l)
+    mapping = {}
+    for l in all_labels(doc):
+        if l not in mapping:
+            mapping[l] = pool.fresh("Al")
+    return mapping, dict((v, k) for k, v in mapping.items())
 
 
 # ---------------------------------------------------------------------------------------
@@ -349,19 +572,23 @@ def _len_class(x):
 def compare(doc, schema, out, counters=None):
     """list of (clause, discriminator, detail) — empty when the round trip kept everything the
     statement lists.  Only NeXML gets the two allowed normalisations."""
-    fails = []
-    src = doc["trees"]
+    fails = list(out.extra)
+    src = out.expect if out.expect is not None else doc["trees"]
     if len(out.got) != len(src):
         fails.append(("tree-count-changed", "none-read" if not out.got else
                       ("fewer" if len(out.got) < len(src) else "more"),
                       {"source": len(src), "got": len(out.got)}))
         return fails
-    for i, (t, (gs, grooted, gweight, same_ns)) in enumerate(zip(src, out.got)):
+    for i, (t, (gs, grooted, gweight, same_ns, foreign, glabel)) in enumerate(zip(src, out.got)):
         ss = t["spec"]
         if counters is not None:
             counters["tree-compared"] += 1
         if not same_ns:
             fails.append(("tree-namespace-not-the-list's", "", {"tree": i}))
+        if foreign:
+            # "the same taxon on every node ... over a namespace": the Taxon objects on the nodes must be
+            # members (by identity) of the namespace the tree says it is over
+            fails.append(("taxon-not-in-namespace", "", {"tree": i, "nodes": foreign}))
         # -- topology and child order
         if _shape(ss) != _shape(gs):
             if _canon_taxa(ss) == _canon_taxa(gs):
@@ -414,6 +641,8 @@ def compare(doc, schema, out, counters=None):
     # -- namespace
     want, got = list(doc["ns"]), list(out.ns)
     if schema == "newick":
+        # Newick carries no namespace order (also when the text is read into the source namespace: the
+        # statement promises the order for NEXUS and NeXML only); duplicates and additions do count
         okns = sorted(want) == sorted(got)
     else:
         okns = want == got
@@ -430,15 +659,16 @@ def compare(doc, schema, out, counters=None):
     return fails
 
 
-CLAUSE_ORDER = ("write-error", "reread-parse-error", "tree-count-changed", "topology-changed", "child-order-changed",
+CLAUSE_ORDER = ("write-error", "write-step-budget-exceeded", "reread-parse-error", "reread-step-budget-exceeded",
+                "dataset-structure-changed", "namespace-not-the-given-one", "tree-count-changed", "topology-changed", "child-order-changed",
                 "taxon-changed", "taxon-lost", "taxon-gained", "node-label-changed", "node-label-lost",
                 "node-label-gained", "leaf-node-label-gained", "length-changed", "rooting-changed",
-                "namespace-changed", "tree-namespace-not-the-list's")
+                "namespace-changed", "tree-namespace-not-the-list's", "taxon-not-in-namespace",
+                "trees-already-in-the-list-changed")
 
 
 def exc_fail(out):
-    clause = "write-error" if out.phase == "write" else "reread-parse-error"
-    return (clause, out.exc[0], {"exception": out.exc[1]})
+    return (out.clause, out.exc[0], {"exception": out.exc[1]})
 
 
 def judge(doc, schema, pair, api, counters=None):
@@ -474,7 +704,20 @@ def probe_docs(label, role):
             {"ns": [label, "za", "zb"], "trees": [{"spec": S(label, [S("za", length=1.0), S("zb", length=1.0)]),
                                                    "rooted": True}]},
         ]
+    if role == "treelabel":
+        # the label names a TREE (NEXUS tree name, NeXML label attribute): alone, and between two other trees
+        two = lambda: S(None, [S("za", length=1.0), S("zb", length=1.0)])
+        return [
+            {"ns": ["za", "zb"], "trees": [{"spec": two(), "rooted": None, "label": label}]},
+            {"ns": ["za", "zb"], "trees": [{"spec": two(), "rooted": True, "label": "zt"},
+                                           {"spec": two(), "rooted": True, "label": label},
+                                           {"spec": two(), "rooted": False}]},
+        ]
     raise ValueError(role)
+
+
+def api_for(doc):
+    return "tree" if len(doc["trees"]) == 1 else "list"
 
 
 _probe_cache = {}
@@ -496,12 +739,12 @@ def probe(label, role, schema, pair, counters=None):
             continue
         if counters is not None:
             counters["probe-roundtrip"] += 1
-        fails, out = judge(doc, schema, pair, "tree")
+        fails, out = judge(doc, schema, pair, api_for(doc))
         if fails and label != CONTROL_LABEL:
             ckey = ("control", role, schema, pair, k)
             if ckey not in _probe_cache:
                 cdoc = probe_docs(CONTROL_LABEL, role)[k]
-                _probe_cache[ckey] = set((f[0], f[1]) for f in judge(cdoc, schema, pair, "tree")[0])
+                _probe_cache[ckey] = set((f[0], f[1]) for f in judge(cdoc, schema, pair, api_for(cdoc))[0])
             fails = [f for f in fails if (f[0], f[1]) not in _probe_cache[ckey]]
         for f in fails:
             found.append((f, doc, out))
@@ -555,29 +798,44 @@ def label_class(s):
     return "with-special-characters"
 
 
-def doc_features(doc):
-    """degenerate features of a document ("" for an ordinary one)."""
+def tree_features(t):
+    f = []
+    s = t["spec"]
+    if not s[3]:
+        if s[0] is None:
+            f.append("single-unlabelled-node-tree")
+    elif any((not n[3]) and n[0] is None for n in ref.preorder(s)):
+        f.append("taxonless-leaf")
+    depth = 0
+    stack = [(s, 0)]
+    while stack:
+        n, d = stack.pop()
+        depth = max(depth, d)
+        for c in n[3]:
+            stack.append((c, d + 1))
+    if depth >= 300:
+        f.append("depth>=300")
+    return f
+
+
+def doc_features(doc, fail=None):
+    """degenerate features of a document ("" for an ordinary one).  For a failed clause that names a
+    tree, only the features of THAT tree count; degenerate features of the other trees of the list are
+    named as `other-tree:<feature>`, so that a wrong result for a healthy tree next to a degenerate one
+    gets a key of its own."""
     f = []
     if not doc["trees"]:
         f.append("empty-tree-list")
     if not doc["ns"]:
         f.append("empty-namespace")
-    for t in doc["trees"]:
-        s = t["spec"]
-        if not s[3]:
-            if s[0] is None:
-                f.append("single-unlabelled-node-tree")
-        elif any((not n[3]) and n[0] is None for n in ref.preorder(s)):
-            f.append("taxonless-leaf")
-        depth = 0
-        stack = [(s, 0)]
-        while stack:
-            n, d = stack.pop()
-            depth = max(depth, d)
-            for c in n[3]:
-                stack.append((c, d + 1))
-        if depth >= 300:
-            f.append("depth>=300")
+    which = fail[2].get("tree") if fail is not None else None
+    ntrees = len(doc["trees"])
+    for i, t in enumerate(doc["trees"]):
+        tf = tree_features(t)
+        if which is None or i == which % ntrees:
+            f.extend(tf)
+        else:
+            f.extend("other-tree:" + x for x in tf)
     return "+".join(sorted(set(f)))
 
 
@@ -615,14 +873,28 @@ def relabel(doc, mapping):
                            [memo[id(c)] for c in n[3]]]
         return memo[id(spec)]
     return dict(doc, ns=[mapping.get(x, x) for x in doc["ns"]],
-                trees=[dict(t, spec=conv(t["spec"])) for t in doc["trees"]])
+                trees=[dict(t, spec=conv(t["spec"]), label=mapping.get(t.get("label"), t.get("label")))
+                       for t in doc["trees"]])
+
+
+def without_tree_labels(doc):
+    """copy of doc whose trees, list and namespace carry no label of their own (None: nothing to drop)."""
+    if not (tree_labels(doc) or doc.get("list_label") or doc.get("ns_label")):
+        return None
+    d = dict(doc, trees=[dict(t, label=None) for t in doc["trees"]])
+    d.pop("list_label", None)
+    d.pop("ns_label", None)
+    return d
 
 
 def doc_text(doc):
     d = _doc_text(doc)
-    for k in ("ns_removed", "ns_reversed"):
+    for k in ("ns_removed", "ns_reversed", "ns_label", "list_label"):
         if doc.get(k):
             d[k] = doc[k]
+    tl = [t.get("label") for t in doc["trees"]]
+    if any(x is not None for x in tl):
+        d["tree_labels"] = tl
     return d
 
 
